@@ -364,7 +364,7 @@ fn helper(name: &str, s: &mut Sites) -> Item {
         _ => unreachable!("{name}"),
     }
 }
-const FS_HELPERS: [&str; 12] = ["cnt", "cnt2", "m", "dS", "dL", "two", "nest", "nestd", "br", "pure", "deep", "ph"];
+const FS_HELPERS: [&str; 13] = ["cnt", "cnt2", "m", "dS", "dL", "two", "nest", "nestd", "br", "pure", "deep", "ph", "gamp"];
 fn helper_deps(name: &str) -> &'static [&'static str] {
     match name {
         "nest" | "nestd" | "br" => &["cnt"],
@@ -424,6 +424,7 @@ fn fs_radix() -> u64 {
     FS_HELPERS.len() as u64 * FS_ATOMS  // call helper(atom)
         + FS_ATOMS                      // mem(atom)
         + FS_DELAYS.len() as u64 * 2    // delay(N, atom in {x, last}, t)
+        + 3                             // mem / delay whose operand is itself a stateful call
         + 2 * 4 * 4                     // if (c) B else B
         + 2                             // arithmetic on last
         + 3                             // nested block with two stateful lets / dsp self / block shadowing a name
@@ -489,6 +490,23 @@ fn fs_stmt(c: &mut Ctx, mut o: u64) -> Option<()> {
         return Some(());
     }
     o -= FS_DELAYS.len() as u64 * 2;
+    if o < 3 {
+        // the cell of the outer mem / delay and the cell of its operand belong to one call site expression
+        c.use_helper("cnt");
+        let inner = call("cnt", vec![c.atom(0)?], c.sites.next());
+        let v = c.fresh();
+        let site = c.sites.next();
+        let (e, what) = match o {
+            0 => (E::Mem(Box::new(inner), site), "mem(cnt(x))"),
+            1 => (E::Delay(3.0, Box::new(inner), Box::new(num(1.0)), site), "delay(3,cnt(x),1)"),
+            _ => (E::Delay(10.0, Box::new(inner), Box::new(num(5.0)), site), "delay(10,cnt(x),5)"),
+        };
+        c.ops.push(what.into());
+        c.stmts.push(let_(&v, e));
+        c.vars.push(v);
+        return Some(());
+    }
+    o -= 3;
     if o < 32 {
         let cond = if o / 16 == 0 { var(DSP_IN) } else { bin("%", E::Now, num(2.0)) };
         let b1 = fs_branch(c, (o / 4) % 4)?;
@@ -573,7 +591,14 @@ pub fn fs_decode(idx: u64, k: u32) -> Option<Gen> {
     let mut hs = Sites(0);
     let mut items: Vec<Item> = vec![];
     for h in FS_HELPERS.iter().filter(|h| c.used.contains(h)) {
-        items.push(helper(h, &mut hs));
+        if *h == "gamp" {
+            // a closure made by a factory (it captures the factory's argument), bound at global scope and used by dsp:
+            // heap-allocated by the global initialiser, stateless
+            items.push(fdef("mkgain", &["g"], E::Lambda(vec!["y".into()], Box::new(bin("*", var("y"), var("g")))), Shape::F));
+            items.push(Item::Let(Pat::Var("gamp".into()), call("mkgain", vec![num(0.5)], hs.next())));
+        } else {
+            items.push(helper(h, &mut hs));
+        }
     }
     items.push(fdef("dsp", &[DSP_IN], E::Block(c.stmts, Some(Box::new(ret))), shape));
     Some(Gen { prog: Prog { items }, family: "FS", inputs: 1, ops: c.ops, ft: None, text: None })
